@@ -95,8 +95,9 @@ HistDesc(h, k) ==
 \* pattern descriptors: every character of every colour type; all 2 x 2 patterns over
 \* {blank, first, last character}
 PatDesc(ct, rows) == [k |-> "pat", ct |-> ct, rows |-> rows]
-GenPatterns ==
-  \A ct \in ColourTypes :
+\* (an operator with a parameter: TLC evaluates constant definitions without parameters eagerly)
+GenPatterns(cts) ==
+  \A ct \in cts :
     LET chs == SetToSeq({ e[1] : e \in CharTable(ct) })
         a == Pal(ct, 0)  b == Pal(ct, 1)
         abc == { Blank, CharOf(ct, a), CharOf(ct, b) }
@@ -109,7 +110,7 @@ GenPatterns ==
 Init == /\ d = New /\ rf = New
         /\ last = [i |-> 0, out |-> OutOk]
         /\ depth = 0 /\ hist = <<>> /\ hh = 0
-        /\ (Gen => GenPatterns)
+        /\ (Gen => GenPatterns(ColourTypes))
 
 Step(i) ==
   LET op == Ops[i]  r == Apply(op, d, rf) IN
